@@ -49,3 +49,4 @@ CONSTANTS
  PeerWhileDisc = TRUE
  LateFrames = FALSE
  CrossVersion = FALSE
+ Restore = FALSE
